@@ -148,9 +148,11 @@ def tol_cases(rng, n, violations):
 
 ASSUMPTIONS = [
     "every option combination (method x j_precompute x dtype x interpreter -OO) is judged in Coq against the same exact model (C01/C02 check functions), so agreement between combinations follows from agreement with the model; bitwise equality of the -OO run with the normal run is additionally measured and reported",
-    "Log = log Real: both judged against the ereal model; Bool = support of Real: theorem supp_Zk; Viterbi <= Log: the Viterbi result with real-valued log-weights is judged against the max-times model and theorem maxtimes_le_plustimes gives the inequality",
+    "Log = log Real: both judged against the ereal model; Bool = support of Real: theorem supp_Zk; Viterbi <= Log: the Viterbi result with real-valued log-weights is judged against the max-times model and theorem maxtimes_le_plustimes gives the inequality; for recursive grammars the relations are proved at the least fixed point / certified enclosures (C11_bool_lfp_is_support_of_real_lfp: the Boolean least fixed point is the support of the supremum of the Real Kleene chain; C11_viterbi_below_real_enclosure / _prefix: every max-times iterate is below every certified Real upper bound and every Real pre-fixed point)",
     "dtype float32 and the interpreter flags are runtime behaviour: decided by differential execution only",
     "gradients across option combinations are judged by C03's gradient check when available; j_precompute=True gradients are compared with j_precompute=False here (see known findings)",
+    "meaning of tol (fixed-point): the theorems are about exact rational Kleene iteration x_{k+1} = A x_k + c with the code's stopping test (Model/Tolerance.v: mt_close = MultiTensor.allclose with rtol=0, absent block = zero, equal infinities close; NaN not modelled); the float64 run is judged against the proved band [mu - tol/(1-||A||), mu] widened by delta = max(mu)/10^12 for rounding; the fixed point mu is computed in Python (exact Fractions) and re-verified inside vtol_check (mu == A mu + c; unique by C11_vector_fixed_point_unique)",
+    "the vector stream's grammars have ONE strongly connected component of nonterminals (plus, for the block shape, a non-looping start symbol above it), so fixed_point iterates exactly x |-> A x + c from the empty MultiTensor; the correspondence grammar -> (A, c) for these shapes is by construction of the generator, not a theorem",
 ]
 
 class SRX(SR):
@@ -348,7 +350,10 @@ def run(tier, seed):
                samples=[dict(info=repr(info[0][1:4]), result=res_n[0])],
                tol_scalar_cases=len(tvals), tol_vector_cases=len(vvals), tol_vector_shapes=vshapes,
                gradient_cases=len(gvals), jprecompute_gradient_exceptions=f9_skipped,
-               open_items=["gradients are judged on C03's j_precompute-friendly grammar family (rules with one or two edges); on other shapes j_precompute=True is covered by the known findings F9"])
+               open_items=["gradients are judged on C03's j_precompute-friendly grammar family (rules with one or two edges); on other shapes j_precompute=True is covered by the known findings F9",
+                           "stop bound: proved for linear systems x = A x + c over Q^n (C11_vector_stop_bound, C11_vector_fixed_point_run, C11_block_fixed_point_run) and for polynomial systems with non-negative coefficients over Q^n under a row-sum bound of the Jacobian at the least fixed point (C11_poly_stop_bound); NOT connected by a theorem to the grammar model (step ereal_ops G w as such a system), nor to several SCCs solved in sequence (the error of an earlier component enters the later one's c)",
+                           "pass_bound is linear in C/tol (Bernoulli); the sharp count is the least K with a^K C <= tol (C11_vector_test_fires is stated with a^K)",
+                           "Log-semiring reading of tol (differences of log-values) is judged differentially only"])
     return cov, violations
 
 def replay(path):
@@ -357,7 +362,7 @@ def replay(path):
 
 MANIFEST = dict(
     level="proof",
-    text="Coq: a semiring homomorphism commutes with every Kleene iterate of the sum-product (hence Boolean result = support of the Real result), max-times is below plus-times on [0,inf] (Viterbi <= Log in the exp reading), Log and Real share one model; one-step and linear downgrades are sound by C01/C02. Differential execution: every combination of method x j_precompute x dtype x {python, python -OO} on generated FGGs is judged in Coq against the same exact model; bitwise agreement of -OO with the normal interpreter and a static scan of assert statements are recorded.",
+    text="Coq: a semiring homomorphism commutes with every Kleene iterate of the sum-product (hence Boolean result = support of the Real result), max-times is below plus-times on [0,inf] (Viterbi <= Log in the exp reading), both carried to least fixed points / certified enclosures of recursive grammars, Log and Real share one model; one-step and linear downgrades are sound by C01/C02. Meaning of tol (fixed-point), proved for every n: for x = A x + c over Q^n (entries >= 0, max row sum a < 1) Kleene iteration from 0 with the code's stopping test (model of MultiTensor.allclose: absolute, symmetric, absent block = zero, whichever blocks are materialised) stops within K passes whenever a^K max(c) <= tol (explicit K = ceil((C-tol)/(tol(1-a)))) without warning and returns x_k with x_k <= mu <= x_k + tol/(1-a) componentwise (and x_{k+1} within a tol/(1-a)), mu the unique = least fixed point, whatever the magnitude of c; the same band for polynomial systems with non-negative coefficients whose Jacobian row sums at the least fixed point are <= a; check functions tol_check / vtol_check proved sound and rejecting, and run on scalar, two-/three-nonterminal and block-valued linear grammars with values up to 2^40. Differential execution: every combination of method x j_precompute x dtype x {python, python -OO} on generated FGGs is judged in Coq against the same exact model; bitwise agreement of -OO with the normal interpreter and a static scan of assert statements are recorded.",
     note="Partial: dtype and interpreter flags are runtime behaviour a Gallina model cannot exhibit; decided by differential execution. Trusted: Coq kernel, extraction cross-checked by vm_compute, harness and worker.",
     technique="Coq homomorphism/lax-homomorphism theorems + model-judged differential execution over the option matrix",
     design_ref="DESIGN.md section 6, C11")
